@@ -7,6 +7,16 @@ SURFACE takes part (initial surface calculation, batch reaction, kinetic steps) 
 the relations of the property statement from the database text (mc/oracles/surf_ref.py) and the reported numbers
 (USER_PUNCH: full doubles from the selected-output value table).
 
+Database dimension: besides phreeqc.dat (+ the user-defined site types below), whose Hfo sorbates are all *primary* master
+species, the lattice runs Hfo_w / Hfo_s of wateq4f.dat and minteq.v4.dat with sorbate sets whose elements are entered as
+TOTALS together with a pe (8, 4, 0), so that they are redox-active in the calculation.  Their sorbing species is then a
+secondary redox state of the element (SeO3-2 / HSeO3-, H3AsO3, Co+2, Cr(OH)2+, Sn(OH)2: every valence-state master
+species of the SOLUTION_MASTER_SPECIES text that differs from the element's master), or - at low pe, where the engine
+takes another valence state as the basis - the element's own master (selenate, arsenate, chromate).  The engine rewrites
+such a species' mass-action equation with electrons; the oracle does not: relation (2) is always evaluated with the
+reaction AS WRITTEN in the database text, dz from the charges written there.  run() asserts (vacuity) that every such
+species of each database was judged under each electrostatic model kind of the bound.
+
 Relations (R1: exactly the statement's):
  (1) site balance: species of each site type sum to the defined sites (scaled by the related phase / kinetic reactant);
  (2) mass action of every surface species: log K(T) from the database text, reported log activities of the aqueous
@@ -153,6 +163,28 @@ MODELS = {
     "cdm2": (" -cd_music\n", "cdm"),
     "cdmdon": (" -cd_music\n -donnan 1e-8\n", "cdmdl"),
 }
+# database dimension: sorbate sets of the other databases.  Elements entered as TOTALS (with pe) are redox-active in the
+# calculation; their sorbing species is then a secondary redox state of the element (selenite, arsenite, Co+2, Cr(OH)2+,
+# Sn(OH)2 - found from the SOLUTION_MASTER_SPECIES text, surf_ref.SurfDB.secondary_redox_masters) next to sorbates that
+# are the element's own master species (selenate, arsenate, Zn+2, SO4-2, UO2+2).  "SeAsv" enters the valence states
+# one by one (redox-active only in the batch reaction that follows the initial surface calculation).
+BASE_SORB = list(SORB)          # sorbate sets of the phreeqc.dat lattice
+SORB.update({
+    "Se": (" Se 0.01\n", ["Se"]),
+    "As": (" As 0.01\n", ["As"]),
+    "SeAsZnS": (" Se 0.01\n As 0.01\n Zn 0.01\n S(6) 1\n Ca 1\n", ["Se", "As", "Zn", "S", "Ca"]),
+    "SeAsv": (" Se(4) 0.005\n Se(6) 0.005\n As(3) 0.005\n As(5) 0.005\n", ["Se", "As"]),
+    "UFeMn": (" U 0.001\n Fe 0.01\n Mn 0.01\n", ["U", "Fe", "Mn"]),
+    "CrCoSn": (" Cr 0.01\n Co 0.01\n Sn 0.001\n", ["Cr", "Co", "Sn"]),
+    "HgVSbCu": (" Hg 0.001\n V 0.01\n Sb 0.01\n Cu 0.01\n", ["Hg", "V", "Sb", "Cu"]),
+})
+DEFAULT_DB = "phreeqc.dat"
+# database -> (sorbate sets of its bound, phase the surface can be related to)
+DBS = {
+    "wateq4f.dat": (["Se", "As", "SeAsZnS", "SeAsv", "UFeMn"], "Fe(OH)3(a)"),
+    "minteq.v4.dat": (["Se", "As", "SeAsZnS", "SeAsv", "CrCoSn", "HgVSbCu"], "Ferrihydrite"),
+}
+PES = [8.0, 4.0, 0.0]
 CAPS = {"ccm1": 1.0, "ccm2": 0.2, "cdm": (1.0, 0.2), "cdm2": (0.85, 4.0), "cdmdon": (1.0, 0.2)}
 MODES = ["equil", "explicit", "phase", "kin"]
 REL_PHASE = "Fe(OH)3(a)"
@@ -161,19 +193,30 @@ PHASE_MOLES = 1e-3
 _db_cache = {}
 
 
-def surfdb():
-    if "db" not in _db_cache:
+def dbname(case):
+    return case.get("db", DEFAULT_DB)
+
+
+def surfdb(name=DEFAULT_DB):
+    """Surface definitions parsed from the TEXT of the database (+ the user-defined site types with phreeqc.dat)."""
+    if name not in _db_cache:
         db = R.SurfDB()
-        db.read(open(os.path.join(build.REPO, "database", "phreeqc.dat"), encoding="latin-1").read())
-        db.read(USER_DB)
-        _db_cache["db"] = db
-    return _db_cache["db"]
+        db.read(open(os.path.join(build.REPO, "database", name), encoding="latin-1").read())
+        if name == DEFAULT_DB:
+            db.read(USER_DB)
+        db.secondary = db.secondary_redox_masters()
+        _db_cache[name] = db
+    return _db_cache[name]
+
+
+def rel_phase(case):
+    return REL_PHASE if dbname(case) == DEFAULT_DB else DBS[dbname(case)][1]
 
 
 # ------------------------------------------------------------------------------------------------- input text
 def layout(case):
     """Column plan of the USER_PUNCH row for this case (the oracle reads by position)."""
-    db = surfdb()
+    db = surfdb(dbname(case))
     sts = [st for st, _ in SURFS[case["surf"]]]
     names = []
     for st in sts:
@@ -201,16 +244,21 @@ def build_input(case):
     mopt, kind = MODELS[case["model"]]
     mode = case["mode"]
     t = []
-    t.append(USER_DB)
+    sdb = surfdb(dbname(case))
+    relph = rel_phase(case)
+    if dbname(case) == DEFAULT_DB:
+        t.append(USER_DB)
     mm = I * 1000.0
     t.append("SOLUTION 1\n temp %r\n pH %r\n units mmol/kgw\n" % (T, ph))
+    if case.get("pe") is not None:
+        t.append(" pe %r\n" % case["pe"])
     if ph > 7.0:
         t.append(" Na %r charge\n Cl %r\n" % (mm, mm))
     else:
         t.append(" Na %r\n Cl %r charge\n" % (mm, mm))
     t.append(SORB[case["sorb"]][0])
     if mode == "phase":
-        t.append("EQUILIBRIUM_PHASES 1\n %s 0 %r\n" % (REL_PHASE, PHASE_MOLES))
+        t.append("EQUILIBRIUM_PHASES 1\n %s 0 %r\n" % (relph, PHASE_MOLES))
     if mode == "kin":
         t.append("RATES\n Ferri\n -start\n 10 SAVE 2e-8 * TIME\n -end\n")
         t.append("KINETICS 1\n Ferri\n -formula FeOOH 1\n -m0 %r\n -steps 3600 in 2 steps\n" % PHASE_MOLES)
@@ -218,9 +266,9 @@ def build_input(case):
     first = True
     for st, frac in SURFS[case["surf"]]:
         n = sites * frac
-        nm = surfdb().masters[st] if mode == "explicit" else st
+        nm = sdb.masters[st] if mode == "explicit" else st
         if mode == "phase":
-            line = " %s %s equilibrium_phase %r" % (nm, REL_PHASE, n / PHASE_MOLES)
+            line = " %s %s equilibrium_phase %r" % (nm, relph, n / PHASE_MOLES)
             if first:
                 line += " %r" % (area * mass / PHASE_MOLES)
         elif mode == "kin":
@@ -247,7 +295,7 @@ def build_input(case):
         ln[0] += 10
     rel = "0"
     if mode == "phase":
-        rel = 'EQUI("%s")' % REL_PHASE
+        rel = 'EQUI("%s")' % relph
     elif mode == "kin":
         rel = 'KIN("Ferri")'
     L('PUNCH MU, EPS_R, TK, TOT("water"), LA("H2O"), %s' % rel)
@@ -316,7 +364,8 @@ def read_row(case, lay, cells):
 
 
 def judge(case, lay, o, tag, problems, diags, stats):
-    db = surfdb()
+    db = surfdb(dbname(case))
+    dbtag = "" if dbname(case) == DEFAULT_DB else " db=%s" % dbname(case)
     sites0, area, mass = GEOMS[case["geom"]]
     kind = MODELS[case["model"]][1]
     mode = case["mode"]
@@ -424,8 +473,12 @@ def judge(case, lay, o, tag, problems, diags, stats):
                 if k != 1.0:
                     stats["ma_skipped"] = stats.get("ma_skipped", 0) + 1
                     continue
+                if any(r in db.secondary for _, r in sp.lhs + sp.rhs):
+                    # coverage counter (vacuity guard in run()): species whose sorbate is a secondary redox state
+                    kk = "ma_sec[%s %s %s]_n" % (dbname(case), kind, sp.name)
+                    stats[kk] = stats.get(kk, 0) + 1
                 if not (err <= TOL):
-                    problems.append(("mass-action model=%s species=%s" % (kind, sp.name),
+                    problems.append(("mass-action model=%s species=%s%s" % (kind, sp.name, dbtag),
                                      "%s: %s: log activity from moles %.15g, from log K(%.2f K)=%.6g, reported activities and potential(s) %.15g (ratio-1 = %.3g)" % (
                                          tag, sp.name, lhs, tk, lk, rhs, err)))
                 # diagnostic: engine's own LA() of the species against mole fraction
@@ -492,7 +545,7 @@ def judge(case, lay, o, tag, problems, diags, stats):
 
 
 def run_case(case):
-    s = phr.Session("phreeqc.dat")          # fresh instance + database per case: self-contained replay script
+    s = phr.Session(dbname(case))          # fresh instance + database per case: self-contained replay script
     lay = layout(case)
     text = build_input(case)
     problems, diags, stats = [], set(), {}
@@ -567,6 +620,8 @@ def nc_message(err):
 # ------------------------------------------------------------------------------------------------- enumeration
 def valid(c):
     kind = MODELS[c["model"]][1]
+    if "db" in c and (c["sorb"] not in DBS[c["db"]][0] or c["surf"] not in ("w", "sw")):
+        raise RuntimeError("lattice point outside the alphabet of %s: %r" % (c["db"], c))
     return (c["surf"] == "c") == (kind in ("cdm", "cdmdl"))
 
 
@@ -583,17 +638,34 @@ def lattice(**dims):
 def bounds(tier):
     """[(name, cases, dimension sets)]; every bound is a complete Cartesian product (minus the surface/model pairs that do
     not exist: CD-MUSIC models need the CD-MUSIC site type and vice versa), ordered simplest-first."""
-    surf, sorb, model = list(SURFS), list(SORB), list(MODELS)
+    surf, sorb, model = list(SURFS), list(BASE_SORB), list(MODELS)
     small = dict(surf=surf, geom=[0], pH=[5.0, 9.0], I=[1e-2, 1.0], sorb=["none", "CaSO4"], model=model, mode=["equil", "kin"])
     out = []
+    plain = [m for m in MODELS if MODELS[m][1] not in ("cdm", "cdmdl")]
+    wq, mq = "wateq4f.dat", "minteq.v4.dat"
     if tier == "quick":
         d = dict(surf=surf, geom=[0], pH=PHS, I=IS, sorb=sorb, model=model, mode=MODES, T=[25.0], ctol=[CTOL])
         out.append(("25 C, one geometry", d))
+        out.append(("wateq4f.dat, redox-active sorbates (totals + pe)",
+                    dict(db=[wq], surf=["w", "sw"], geom=[0], pH=PHS, I=IS, pe=PES, sorb=DBS[wq][0],
+                         model=["ddl", "noedl", "ccm1", "ccm2"], mode=["equil", "explicit"], T=[25.0], ctol=[CTOL])))
+        out.append(("minteq.v4.dat, redox-active sorbates (totals + pe), reduced lattice",
+                    dict(db=[mq], surf=["sw"], geom=[0], pH=[7.0, 5.0, 9.0], I=[1e-2, 1.0], pe=[8.0, 0.0], sorb=DBS[mq][0],
+                         model=["ddl", "noedl", "ccm1"], mode=["equil", "explicit"], T=[25.0], ctol=[CTOL])))
         out.append(("10 C and 60 C, reduced lattice", dict(small, T=[10.0, 60.0], ctol=[CTOL])))
         out.append(("default convergence tolerance (reported, not judged)", dict(small, T=[25.0], ctol=[1e-8], diag=[1])))
     else:
         d = dict(surf=surf, geom=[0, 1, 2], pH=PHS, I=IS, sorb=sorb, model=model, mode=MODES, T=[25.0], ctol=[CTOL])
         out.append(("25 C, three geometries", d))
+        out.append(("wateq4f.dat, redox-active sorbates (totals + pe), two geometries",
+                    dict(db=[wq], surf=["w", "sw"], geom=[0, 1], pH=PHS, I=IS, pe=PES, sorb=DBS[wq][0],
+                         model=plain, mode=MODES, T=[25.0], ctol=[CTOL])))
+        out.append(("minteq.v4.dat, redox-active sorbates (totals + pe)",
+                    dict(db=[mq], surf=["w", "sw"], geom=[0], pH=PHS, I=IS, pe=PES, sorb=DBS[mq][0],
+                         model=plain, mode=MODES, T=[25.0], ctol=[CTOL])))
+        out.append(("wateq4f.dat and minteq.v4.dat at 10 C and 60 C, reduced lattice",
+                    dict(db=[wq, mq], surf=["w", "sw"], geom=[0], pH=[5.0, 9.0], I=[1e-2, 1.0], pe=PES, sorb=["Se", "As", "SeAsZnS", "SeAsv"],
+                         model=["ddl", "noedl", "ccm1", "don"], mode=["equil", "kin"], T=[10.0, 60.0], ctol=[CTOL])))
         d = dict(surf=surf, geom=[0, 1], pH=PHS, I=IS, sorb=sorb, model=model, mode=MODES, T=[10.0, 60.0, 40.0], ctol=[CTOL])
         out.append(("10, 40 and 60 C, two geometries", d))
         out.append(("default convergence tolerance (reported, not judged)",
@@ -652,7 +724,8 @@ ASSUMPTIONS = [
     "-cd_music dz0 dz1 dz2 f z: the central ion charge z is split f : (1-f) over planes 0 and 1 (manual)",
     "judged inputs ask for KNOBS -convergence_tolerance 1e-13 (the engine's charge residual criterion is absolute); lattice surfaces have >= 2e-4 mol sites",
     "EDL_SPECIES moles are the total moles of each ion in the diffuse-layer water",
-    "phreeqc.dat Hfo_w / Hfo_s and the user-defined site types of USER_DB; vdrv driver and the Python oracle are trusted",
+    "phreeqc.dat Hfo_w / Hfo_s and the user-defined site types of USER_DB; wateq4f.dat and minteq.v4.dat Hfo_w / Hfo_s with every surface species of the database text; vdrv driver and the Python oracle are trusted",
+    "mass action is evaluated with the reaction AS WRITTEN in the database text (reactants e.g. SeO3-2, HSeO3-, H3AsO3, Co+2, Cr(OH)2+, Sn(OH)2 with their reported LA()), dz = charge of the product - charge of the surface reactant; how the engine rewrites the reaction in the master species of the current model (electrons when the element is redox-active) is not used",
 ]
 
 
@@ -674,8 +747,14 @@ def run(tier):
                  dims={k: (v if len(v) < 8 else "%d values" % len(v)) for k, v in dims.items()})
     pool.close()
     judged = sum(a + b for a, b in ev.by_model.values())
+    sec_counts = {k[7:-3]: v for k, v in sorted(ev.counts.items()) if k.startswith("ma_sec[")}
+    ev.counts = {k: v for k, v in ev.counts.items() if not k.startswith("ma_sec[")}
+    ev.extra["secondary_redox_sorbate_mass_action_evaluations"] = sec_counts
+    ev.extra["databases"] = {DEFAULT_DB: "Hfo_w, Hfo_s + the user-defined site types",
+                             **{k: {"sorbates": v[0], "related_phase": v[1], "pe": PES,
+                                    "secondary_redox_master_species(database text)": sorted(surfdb(k).secondary)} for k, v in DBS.items()}}
     ev.extra["alphabet"] = {"surfaces": {k: [st for st, _ in v] for k, v in SURFS.items()}, "geometries(sites mol, m2/g, g)": GEOMS, "pH": PHS, "I": IS,
-                            "sorbates": list(SORB), "models": {k: " ".join(v[0].split()) or "(default DDL)" for k, v in MODELS.items()},
+                            "sorbates": BASE_SORB, "models": {k: " ".join(v[0].split()) or "(default DDL)" for k, v in MODELS.items()},
                             "capacitances": CAPS, "modes": MODES}
     ev.extra["lattice_points"] = sum(len(cs) for _, cs, _ in bs)
     ev.extra["judged_runs_completed"] = ev.completed
@@ -700,6 +779,22 @@ def run(tier):
         for rel_n in ("ma_n", "gouy-chapman_n", "ccm_n", "cdmusic-plane0_n", "cdmusic-plane2-diffuse_n", "dl-balance_n"):
             if ev.counts.get(rel_n, 0) < 100:
                 raise SystemExit("HARNESS ERROR: relation %s evaluated %d times" % (rel_n, ev.counts.get(rel_n, 0)))
+        # database dimension: every surface species of the bound's database whose database reaction contains a secondary
+        # redox master species must have been judged under every electrostatic model kind of the bound
+        for name, cs, dims in bs:
+            for dbn in dims.get("db", ()):
+                sdb = surfdb(dbn)
+                sts = sorted({st for sf in dims["surf"] for st, _ in SURFS[sf]})
+                els = {e for sb in dims["sorb"] for e in SORB[sb][1]}
+                want = [sp.name for st in sts for sp in sdb.species_of_site(st)
+                        if any(sdb.secondary.get(r) in els for _, r in sp.lhs + sp.rhs)]
+                if len(want) < 3:
+                    raise SystemExit("HARNESS ERROR: %s: %d surface species with a secondary redox sorbate found in the database text" % (dbn, len(want)))
+                for kd in sorted({MODELS[m][1] for m in dims["model"]}):
+                    for spn in want:
+                        if sec_counts.get("%s %s %s" % (dbn, kd, spn), 0) < 10:
+                            raise SystemExit("HARNESS ERROR: mass action of %s (%s, %s) evaluated %d times" % (
+                                spn, dbn, kd, sec_counts.get("%s %s %s" % (dbn, kd, spn), 0)))
         if len(ev.outcomes) < 0.5 * ev.completed:
             raise SystemExit("HARNESS ERROR: %d distinct outcomes for %d completed runs" % (len(ev.outcomes), ev.completed))
     return core.finish(ev, findings)
